@@ -10,12 +10,17 @@ format_mesen_mlb (directly and through driver::format_output).  Per text, three 
   (2) spec: the extracted checker of coq/Spec/ListingSpec.v reads the IMPLEMENTATION's text and compares it with the
       implementation's own spans + bits + files + symbols (a 0 is a concrete failing input);
   (3) an independent Python reading of the annotated, addrspan and symbols texts.
+  (5) #if arms: programs whose global and LOCAL labels / constants are declared inside taken #if / #elif / #else arms
+      between ordinary globals (several declaration rounds): the (full name, value) pairs of `symbols`, the lines of
+      `mesen-mlb` and the label rows of `annotated` == the declarations of the selected world under the scope rule
+      (computed in Python) == the symbols of the inlined world assembled by the same implementation.
   (4) addresses: every span's logical address (which all three listings print) == addr_start + (offset - outp) / unit
       of the bank whose output window holds the offset (extracted addresses_ok + Python), incl. non-power-of-two units.
 Plus sensitivity controls: damaged texts and the pre-F53 model text must be REJECTED by the extracted checker."""
 import vlib
 import c12_gen
 import asm_gen, asm2_gen
+import c15_gen
 
 BASES = [2, 4, 8, 16, 32, 64, 128]
 GROUPS = [1, 2, 3, 4, 5, 7, 8, 16]
@@ -395,6 +400,86 @@ def model_spans_banks(ans):
     return "OK", cm[5], tuple((b[0], b[1], b[4], b[3]) for b in cm[4])
 
 
+# ------------------------------------------------------------------ symbols declared inside #if arms
+def gen_if_symbols(rng):
+    """items in the format of tools/c15_gen.py (render_cond / select_world): ordinary global labels and constants, some
+    of them declared inside the taken arm of an #if / #elif / #else construct (so they are declared a round later),
+    each followed by data and by LOCAL labels / constants (`.a`, `..b`) that sit either in the open or in #if arms of
+    their own (several per global, also nested), referenced only locally; decoy arms declare other names.
+    A local is never placed after an #if block that declared its parent unless it is inside that arm (class F55)."""
+    T = lambda: rng.choice(["true", "1 == 1", "q1 == 1"])
+    F = lambda: rng.choice(["false", "1 == 2", "q1 == 2"])
+    nd = [0]
+
+    def decoy():
+        nd[0] += 1
+        return rng.choice([[("L", 0, "zz%d" % nd[0])], [("C", rng.below(2), "dd%d" % nd[0], ("l", 99))],
+                           [("D", 8, ("l", 238))], [("L", 1, "trace")]])
+
+    def wrap(seg):
+        k = rng.below(5)
+        if k == 0:
+            return [("I", [(T(), True, seg)], None)]
+        if k == 1:
+            return [("I", [(F(), False, decoy())], seg)]
+        if k == 2:
+            return [("I", [(F(), False, decoy()), (T(), True, seg)], decoy() if rng.chance(0.5) else None)]
+        if k == 3:
+            return [("I", [(T(), True, seg)], decoy())]
+        return [("I", [(T(), True, [("I", [(T(), True, seg)], None)])], None)]
+
+    def locals_of(depth_names):
+        out = []
+        for j in range(rng.range(0, 3)):
+            nm = rng.choice(["a", "b", "c", "trace", "lp"]) + str(j)
+            seg = [("L", 1, nm) if rng.chance(0.6) else ("C", 1, nm, ("l", 64 + rng.below(60)))]
+            seg.append(("O",))
+            if rng.chance(0.6):
+                seg.append(("D", 8, ("r", 1, [nm])))                  # referenced only locally
+            if rng.chance(0.3):
+                seg.append(("L", 2, "deep%d" % j) if rng.chance(0.5) else ("C", 2, "deep%d" % j, ("l", 7)))
+                seg.append(("O",))
+            out.append(seg)
+        return out
+
+    items = [("C", 0, "q1", ("l", 1))]
+    items += [("O",)] * rng.range(14, 18)                              # past the 16-byte header of the Mesen format
+    for i in range(rng.range(3, 6)):
+        g = [("L", 0, "g%d" % i) if rng.chance(0.75) else ("C", 0, "g%d" % i, ("l", 200 + i)), ("O",)]
+        segs = locals_of(None)
+        if rng.chance(0.4):
+            # the global itself is declared inside an arm; its locals stay inside that arm
+            body = list(g)
+            for sg in segs:
+                body += wrap(sg) if rng.chance(0.4) else sg
+            items += wrap(body)
+        else:
+            items += g
+            for sg in segs:
+                items += wrap(sg) if rng.chance(0.65) else sg
+    return items
+
+
+def world_symbols(world):
+    """(full dotted name, value, is_label) of every declaration of the selected world, by the scope rule: a symbol
+    with k dots is a child of the latest symbol with k-1 dots; label value = address (one byte per data item)"""
+    out, chain, addr = [], [], 0
+    for n, _ in world:
+        if n[0] in ("L", "C"):
+            k = n[1]
+            if k > len(chain):
+                return None
+            chain = chain[:k] + [n[2]]
+            out.append((".".join(chain), addr if n[0] == "L" else n[3][1], n[0] == "L"))
+        else:
+            addr += 1
+    return out
+
+
+def parse_symbols_text(t):
+    return sorted((ln.split(" = 0x")[0], int(ln.split(" = 0x")[1], 16)) for ln in t.split("\n") if ln)
+
+
 # ------------------------------------------------------------------ the check
 def requests_for(rng):
     reqs = []
@@ -464,6 +549,18 @@ def run(chk):
             p2 = gen_pipe_prog(g)
         pipe[len(progs)] = p2
         progs.append((p2.text(), {}, ["pipeline"], [("a", g.choice(BASES), g.choice(GROUPS)), ("s", 0, 0), ("y", 0, 0)], "pipeline"))
+    # #if stream: declarations inside #if arms; each program together with its selected world (taken arms inlined)
+    ri = chk.rng.fork("ifsym")
+    ifprogs = {}   # index of the conditional program -> (index of the inlined world, world, f55)
+    for i in range(500 if quick else 5000):
+        g = ri.fork("c%d" % i)
+        items = gen_if_symbols(g) if i % 4 != 3 else c15_gen.gen_cond_program(g)
+        world = c15_gen.select_world(items)
+        reqs = [("y", 0, 0), ("m", 0, 0), ("a", 16, 2)]
+        ci_ = len(progs)
+        progs.append((c15_gen.render_cond(items), {}, ["if-arms"], reqs, "if_symbols"))
+        progs.append((c15_gen.render([n for n, _ in world]), {}, ["if-arms"], reqs, "if_symbols"))
+        ifprogs[ci_] = (ci_ + 1, world, c15_gen.f55_exact(world))
     lines = [impl_line(t, e, r) for (t, e, _, r, _) in progs]
     res = {p: vlib.run_lines([bins[p] + "/listing"], lines) for p in ("debug", "release")}
     vlib.extraction("ExResolver2")
@@ -543,6 +640,59 @@ def run(chk):
                           dict(rep, impl_spans=info["spans_wire"][:3000], impl_banks=info["banks_wire"],
                                theorems=["C12_pipeline_addresses", "C12_pipeline_one_item"]), found=False)
     chk.count("pipeline_spans", len(pidx), **npipe)
+
+    # ---- #if stream: the symbol files and the label rows name the declarations of the SELECTED WORLD
+    f55 = [f for f in vlib.known_findings() if f.get("class") == "nested_symbol_across_if" and f.get("status") == "known"]
+    nif = {"ok": 0, "rejected": 0, "several_rounds": 0, "local_in_arm": 0, "class_F55": 0}
+    for ci_, (wi_, world, in_f55) in sorted(ifprogs.items()):
+        d, dw = res["debug"][ci_], res["debug"][wi_]
+        if d != res["release"][ci_] or dw != res["release"][wi_]:
+            continue
+        exp = world_symbols(world)
+        if not d.startswith("OK") or not dw.startswith("OK") or exp is None:
+            nif["rejected"] += 1
+            continue
+        info, winfo = parse_answer(d), parse_answer(dw)
+        texts = [bytes.fromhex(split_out(o)[0] or "").decode("utf-8") if split_out(o)[0] not in (None, "-") else "" for o in info["outs"]]
+        wtexts = [bytes.fromhex(split_out(o)[0] or "").decode("utf-8") if split_out(o)[0] not in (None, "-") else "" for o in winfo["outs"]]
+        nif["ok"] += 1
+        if progs[ci_][0].count("#if") > 1:
+            nif["several_rounds"] += 1
+        if any(len(pth) > 0 and n[0] in ("L", "C") and n[1] > 0 for n, pth in world):
+            nif["local_in_arm"] += 1
+        chk.nontriv((ci_, "if-symbols"))
+        want = sorted((nm, v) for nm, v, _ in exp)
+        got = parse_symbols_text(texts[0])
+        wgot = parse_symbols_text(wtexts[0])
+        want_m = sorted("P:%x:%s" % (v - 16, nm.replace(".", "_")) for nm, v, lab in exp if lab and v >= 16)
+        got_m = sorted(ln for ln in texts[1].split("\n") if ln)
+        # label rows of the annotated listing: (name as written, address)
+        rows = sorted((info["files"][s_["file"]][1][s_["loc"][0]:s_["loc"][1]].decode("utf-8").strip(".:"), s_["addr"])
+                      for s_ in info["spans"] if s_["size"] == 0 and s_["loc"] and
+                      info["files"][s_["file"]][1][s_["loc"][0]:s_["loc"][1]].endswith(b":"))
+        want_rows = sorted((nm.split(".")[-1], v) for nm, v, lab in exp if lab)
+        bad = None
+        if got != want:
+            bad = "symbols lists %s, the selected world declares %s" % (
+                [x for x in got if x not in want][:4], [x for x in want if x not in got][:4])
+        elif got != wgot:
+            bad = "symbols differs from the symbols of the inlined world: %s vs %s" % (got[:6], wgot[:6])
+        elif got_m != want_m:
+            bad = "mesen-mlb lists %s, expected %s" % ([x for x in got_m if x not in want_m][:4], [x for x in want_m if x not in got_m][:4])
+        elif rows != want_rows:
+            bad = "annotated label rows %s, expected %s" % (rows[:6], want_rows[:6])
+        if bad:
+            if in_f55 and f55:
+                nif["class_F55"] += 1
+                chk.known(f55[0]["id"], "class=nested_symbol_across_if: a nested symbol after an #if block that declares its parent (%s)" % bad[:160])
+            else:
+                chk.violation("declarations inside #if arms: the symbol table / listing does not name the declared symbols: " + bad,
+                              dict(kind="if-symbols", main=progs[ci_][0], files={}, requests=["y", "m", "a:16:2"], impl_line=lines[ci_],
+                                   selected_world=progs[wi_][0], symbols_text=texts[0][:2000], mesen_text=texts[1][:2000],
+                                   expected=[list(x) for x in want][:60]))
+        elif in_f55:
+            nif["class_F55"] += 1
+    chk.count("if_symbols_oracle", len(ifprogs), **nif)
 
     # ---- the addresses the spans carry (and every listing therefore prints) against the bank layout
     okprogs = sorted(set(c["pi"] for c in cases))
